@@ -293,6 +293,25 @@ func c15Gen(r *Rng) c15Scn {
 		}
 		scn.Steps = append(scn.Steps, s)
 	}
+	// a stream of two 4096-byte reads whose first read ends inside a long scalar, pulled while the
+	// cache write fails early: what the parser holds when the write error comes back is a partial line
+	if r.Chance(1, 30) {
+		rv := &scn.Revs[0]
+		k := c15GetKinds()
+		g := Pick(r, k.allowed[rv.PType])
+		rv.Docs = []c15Doc{{T: "meta", GVK: c15GoodMeta(rv.PType), Name: "pkg-" + rv.PType, Con: "none"},
+			{T: "obj", GVK: g, Name: c15ObjName(g, 0), Pad: r.Range(3200, 4300)}}
+		for i, n := 1, r.Intn(3); i <= n; i++ {
+			g := Pick(r, k.allowed[rv.PType])
+			rv.Docs = append(rv.Docs, c15Doc{T: "obj", GVK: g, Name: c15ObjName(g, i)})
+		}
+		rv.Img, rv.Pre, rv.Never = Pick(r, []string{"annotated", "plain", "multi"}), "cold", false
+		scn.Feature = false
+		scn.Steps = []c15Step{
+			{K: "rec", R: 0, Active: true, F: c15Faults{Read: -1, Store: "write", StoreN: Pick(r, []int{0, 3, 9, 10, 12})}},
+			{K: "rec", R: 0, Active: true, F: c15Faults{Read: -1}},
+		}
+	}
 	// two reconciles of different revisions sharing the cache, run concurrently
 	for i := 0; i+1 < len(scn.Steps); i++ {
 		a, b := &scn.Steps[i], &scn.Steps[i+1]
